@@ -415,6 +415,26 @@ def _ops():
 
         return tracked_array(T)
 
+    # ---- write-protection flags (byte preserving): a dirty flag must survive a freeze
+    @add("freeze", "read")
+    def _(T, st):
+        T.flags.writeable = False
+
+    @add("freeze_setflags", "read")
+    def _(T, st):
+        np.ndarray.setflags(T, write=False)
+
+    @add("freeze_mutable", "read")
+    def _(T, st):
+        T.mutable = False
+
+    @add("thaw", "read")
+    def _(T, st):
+        try:
+            T.flags.writeable = True
+        except ValueError:
+            pass
+
     # ---- hash read
     @add("hash", "hash")
     def _(T, st):
@@ -620,6 +640,38 @@ def container_checks(run):
         if a.__hash__() != b.__hash__():
             run.violation("container kind=mesh sym=equal_arrays_differ", "two meshes with equal arrays hash differently", {})
 
+    # one TrackedArray handed to two owners: an edit through either handle must show in both
+    # hashes (the store keeps the object it was given, it does not re-wrap it in a view)
+    for how in ("constructor", "assign", "datastore"):
+        a = trimesh.Trimesh(np.array(box.vertices), np.array(box.faces), process=False)
+        if how == "constructor":
+            b = trimesh.Trimesh(vertices=a.vertices, faces=a.faces, process=False)
+            hb = lambda: b.__hash__()  # noqa
+        elif how == "assign":
+            b = trimesh.Trimesh(np.array(ico.vertices), np.array(ico.faces), process=False)
+            b.vertices = a.vertices
+            b.faces = a.faces
+            hb = lambda: b.__hash__()  # noqa
+        else:
+            b = DataStore()
+            b["v"] = a.vertices
+            hb = lambda: b.__hash__()  # noqa
+        h0a, h0b = a.__hash__(), hb()
+        _ = a.bounds
+        a.vertices[:, 2] *= 4.0
+        run.case("container:shared_tracked_array:" + how)
+        run.count("container_checks")
+        if a.__hash__() == h0a:
+            run.violation("container kind=mesh scenario=shared_tracked_array:%s owner=editor sym=hash_unchanged" % how,
+                          "hash of the mesh that was edited did not change", {"how": how})
+        if hb() == h0b:
+            run.violation("container kind=mesh scenario=shared_tracked_array:%s owner=other sym=hash_unchanged" % how,
+                          "a TrackedArray shared by two owners was edited through one of them; the other owner's hash did not change",
+                          {"how": how})
+        if how != "datastore" and b.__hash__() != a.__hash__():
+            run.violation("container kind=mesh scenario=shared_tracked_array:%s sym=equal_arrays_differ" % how,
+                          "two meshes holding the same arrays hash differently", {"how": how})
+
     # DataStore: member edits and equality
     ds1, ds2 = DataStore(), DataStore()
     ds1["a"] = np.arange(6.0).reshape(2, 3)
@@ -813,6 +865,17 @@ def workload(run):
         if run.out_of_time(0.8):
             run.count("templates_cut_short")
             break
+    # (2a) edit, then write-protect, then look: the memo must not outlive the edit because the
+    # array is read-only by the time the hash is asked for
+    for dname in dnames:
+        for w in writers:
+            for fz in ("freeze", "freeze_setflags", "freeze_mutable"):
+                idx += 1
+                if not run.mine(idx):
+                    continue
+                do(dname, [("hash", "root"), (w, "root"), (fz, "root")])
+                do(dname, [("hash", "root"), (w, "root"), (fz, "root"), ("hash", "root"), ("thaw", "root"), (w, "root")])
+                do(dname, [("v_slice", "root"), ("hash", "last"), (w, "last"), (fz, "last")])
     # (2b) view-of-view chains
     for dname in ("f8_n3", "i8_n3", "u1_n4"):
         for v1, v2 in itertools.product(groups["view"], groups["view"]):
